@@ -7,6 +7,9 @@ fn usage() -> ! {
 }
 
 fn main() {
+    // anyhow captures a backtrace per error under a global lock when these are set
+    std::env::set_var("RUST_BACKTRACE", "0");
+    std::env::set_var("RUST_LIB_BACKTRACE", "0");
     install_panic_hook();
     let args: Vec<String> = std::env::args().skip(1).collect();
     if args.len() < 2 {
